@@ -3,13 +3,15 @@
 import json, os, sys, glob
 ROOT = os.path.dirname(os.path.dirname(os.path.abspath(__file__)))
 reg = json.load(open(os.path.join(ROOT, "checks.json")))
+for frag in sorted(glob.glob(os.path.join(ROOT, "checks.d", "*.json"))):
+    reg.update(json.load(open(frag)))
 na = json.load(open(os.path.join(ROOT, "not_applicable.json")))
 props = [json.loads(l) for l in open(os.path.join(ROOT, "properties.jsonl"))]
 ids = [p["id"] for p in props]
 hooks = json.load(open(os.path.join(ROOT, "hooks.json")))
 checks = []
 for i in ids:
-    if i not in reg:
+    if i not in reg or not os.path.exists(os.path.join(ROOT, "evidence", i + ".json")) and "--all" not in sys.argv:
         continue
     s = reg[i]
     checks.append({
